@@ -597,11 +597,8 @@ func (lunar *Lunar) GetFestivals() *list.List {
 	if f, ok := LunarUtil.FESTIVAL[fmt.Sprintf("%d-%d", lunar.month, lunar.day)]; ok {
 		l.PushBack(f)
 	}
-	m := lunar.month
-	if m < 0 {
-		m = -m
-	}
-	if m == 12 && lunar.day >= 29 && lunar.year != lunar.Next(1).GetYear() {
+	//除夕为阴历年的最后一天(历史上有以十一月结束的年份，也有仅28天的腊月)，月末才需要看次日
+	if lunar.day >= 28 && lunar.year != lunar.Next(1).GetYear() {
 		l.PushBack("除夕")
 	}
 	return l
